@@ -239,7 +239,7 @@ func queueInputs(r *hx.Rand, tier string) []QInput {
 			if p.Proto == "tcp" {
 				p.SPort = 20000 + i // every SYN its own record
 			}
-			p.Dst = r.Intn(len(sensorIPs))
+			p.Dst = r.Intn(len(allSensorIPs))
 			return p
 		})
 	}
